@@ -114,6 +114,13 @@ CHECKS = {
             '"no match" for mutated patterns',
             'Every pair in the bounded space is executed and every returned match validated by an exhaustive witness search '
             'written from the property statement; a match without witness, or a match of absent content, is a violation.', '2/C10'),
+    'C06': ('bounded-exhaustive CS1 programs (all sequences of <=2 statements over 44 statements; 3 statements in thorough) x 4 input '
+            'queues run in the real sandbox, and 11 student functions x 26 argument values (non-finite floats, quotes/newlines, '
+            'nested containers, a 300-element list, class/builtin objects) x 3 call forms through call(); oracle: the same source '
+            'exec()d as __main__ under plain CPython with a FIFO input model (echo/default calibrated) and the direct call',
+            'Every program x queue and function x argument in the bounded space is executed both ways; printed text, line list, '
+            'student globals, outcome class and line, consumed inputs, return value/exception and leftover temporaries are compared.',
+            '2/C06'),
 }
 
 PENDING = ['C02', 'C03', 'C04', 'C05', 'C06', 'C07', 'C08', 'C09', 'C10', 'C11', 'C12', 'C13', 'C14', 'C15',
